@@ -149,6 +149,9 @@ func (a *simpleAuth) addUser(u, p string, r, w string) error {
 
 	var err error
 
+	// no rule of his own: the user gets the default one (a nil rule would crash the first ACL check)
+	c.read, c.write = a.read, a.write
+
 	if r != "" {
 		if c.read, err = regexp.Compile(r); err != nil {
 			return err
